@@ -19,10 +19,10 @@ theorem enc_storedRow (cid : Nat) (k : String) (old : Option Row) (nid : Nat) (r
 leaves the collection with exactly `sqlExec`'s row under `k` and every other key untouched. -/
 theorem liftRow_is_sql (cid : Nat) (k : String) (f : RowFn) (nc now nid : Nat) (docs docs' : Docs) (nid' : Nat) (ev : Option Event) (o : Out)
     (sqlExec : Option SRow → Res)
-    (htie : ∀ old : Option Row, sqlExec (old.map (enc cid k)) =
-      match f nc now old with
+    (htie : sqlExec ((docs.get? k).map (enc cid k)) =
+      match f nc now (docs.get? k) with
       | .inr (some r', _, _) => { row := some (enc cid k r'), affected := 1 }
-      | _ => { row := old.map (enc cid k), affected := 0 })
+      | _ => { row := (docs.get? k).map (enc cid k), affected := 0 })
     (h : liftRow k f nc now nid docs = .inr (docs', nid', ev, o)) :
     (docs'.get? k).map (enc cid k) = (sqlExec ((docs.get? k).map (enc cid k))).row ∧
     ∀ k', k' ≠ k → docs'.get? k' = docs.get? k' := by
@@ -40,6 +40,17 @@ theorem add_on_collection_is_sql (cid : Nat) (k val : String) (exp : Nat) (isJSO
           (env [("c.id", .int cid), ("key", .text k), ("val", .text val), ("$cas", .int nc), ("exp", .int (absExp now exp)), ("isJSON", ofBool isJSON)])
           ((docs.get? k).map (enc cid k))).row ∧
     ∀ k', k' ≠ k → docs'.get? k' = docs.get? k' :=
-  liftRow_is_sql cid k (addRow k exp val isJSON) nc now nid docs docs' nid' ev o _ (fun old => tie_add cid k val exp isJSON nc now old) h
+  liftRow_is_sql cid k (addRow k exp val isJSON) nc now nid docs docs' nid' ev o _ (tie_add cid k val exp isJSON nc now (docs.get? k)) h
+
+/-- `WriteCas` (every option) on a collection = the statement its `if` chain chooses, on the addressed row, nothing else changes
+(whenever the Go code reaches its `Exec`: the key exists or the CAS supplied is 0). -/
+theorem wcas_on_collection_is_sql (cid : Nat) (k : String) (exp cas : Nat) (val : Option String) (opts : WOpts) (nc now nid : Nat)
+    (docs docs' : Docs) (nid' : Nat) (ev : Option Event) (o : Out) (hreach : (docs.get? k).isSome ∨ cas = 0)
+    (h : wcasFn k exp cas val opts nc now nid docs = .inr (docs', nid', ev, o)) :
+    (docs'.get? k).map (enc cid k)
+      = (wcasExec opts cas (wasTomb (docs.get? k)) (wcasEnv cid k exp cas val opts nc now (docs.get? k))
+          ((docs.get? k).map (enc cid k))).row ∧
+    ∀ k', k' ≠ k → docs'.get? k' = docs.get? k' :=
+  liftRow_is_sql cid k (wcasRow k exp cas val opts) nc now nid docs docs' nid' ev o _ (tie_wcas cid k exp cas val opts nc now (docs.get? k) hreach) h
 
 end Rosmar.Gen.Sql
